@@ -207,3 +207,78 @@ func lockScenarios(r *vc.Rand, prefix string, ttls []string, sleepNS int, nRando
 	}
 	return out
 }
+
+// ---- bursts from a non-empty store: key a absent / live / permanent / expired-but-unswept, of every
+// value kind; then 2-3 callers × 1-2 calls racing on it (incl. CleanupExpired); then a probe.
+
+const (
+	bShort = "2000000" // 2 ms, always followed by `sl 6000000` in the prefix
+	bSleep = "sl 6000000"
+)
+
+func burstPrefixes() []string {
+	x, l := strAtoms[0], strconv.Itoa(longNS)
+	kinds := func(t string) []string {
+		return []string{"set a " + x + " " + t, "set a i1 " + t, "setl a 1 " + x + " " + t, "hset a f " + x + " exp a " + t}
+	}
+	out := []string{""}
+	out = append(out, kinds(l)...)
+	out = append(out, kinds("0")...)
+	for _, p := range kinds(bShort) {
+		out = append(out, p+" "+bSleep)
+	}
+	return out
+}
+
+func burstWriters() []string {
+	x, y, z, l := strAtoms[0], strAtoms[1], sTok("z"), strconv.Itoa(longNS)
+	return []string{"nx a " + y + " 0", "nx a " + z + " " + l, "cas a nil " + y + " 0", "cas a " + x + " " + y + " " + l,
+		"set a " + z + " 0", "incr a 1", "app a " + y, "hset a g " + y, "del a", "exp a 0", "gc"}
+}
+
+func burstReaders() []string { return []string{"ex a", "ttl a", "getl a", "hall a", "hget a f"} }
+
+const burstProbe = "get a ttl a ex a getl a hall a"
+
+func genBurst(r *vc.Rand, thorough bool) []string {
+	var out []string
+	w, rd := burstWriters(), burstReaders()
+	for _, pre := range burstPrefixes() {
+		line := func(progs ...string) string {
+			return strings.Join(strings.Fields("burst "+pre+" / "+strings.Join(progs, " ; ")+" / "+burstProbe), " ")
+		}
+		// exhaustive: 2 callers × 1 call
+		for i := range w {
+			for j := i; j < len(w); j++ {
+				out = append(out, line(w[i], w[j]))
+			}
+			for _, q := range rd {
+				out = append(out, line(w[i], q))
+			}
+		}
+		// 3 callers racing the same claim, and claim vs sweep
+		out = append(out, line(w[0], w[1], w[0]), line(w[2], w[0], w[2]), line(w[0], w[1], "gc"), line(w[5], w[5], w[5]))
+		// random 2-3 callers × 1-2 calls
+		n := 4
+		if thorough {
+			n = 120
+		}
+		for i := 0; i < n; i++ {
+			nt := 2 + r.Intn(2)
+			progs := make([]string, nt)
+			for t := range progs {
+				var cs []string
+				for c, m := 0, 1+r.Intn(2); c < m; c++ {
+					if r.Intn(4) == 0 {
+						cs = append(cs, vc.Pick(r, rd))
+					} else {
+						cs = append(cs, vc.Pick(r, w))
+					}
+				}
+				progs[t] = strings.Join(cs, " ")
+			}
+			out = append(out, line(progs...))
+		}
+	}
+	return out
+}
